@@ -576,6 +576,8 @@ class ApplicationJobs:
                 # generate a process event for this process to inform all Supvisors instances
                 reason = f'process {getProcessStateDescription(expected_state)} event not received in time'
                 self.fail_command(command.process, command.identifier, event_time, reason)
+                # a timeout is a failure like the others (e.g. apply the starting failure strategy)
+                self.process_failure(command.process)
             if result == ProcessRequestResult.SUCCESS:
                 # NOTE: the result has been reached outside the scope of the sequencer
                 #       the job MUST be removed of the sequencer will block
